@@ -241,7 +241,7 @@ func c20EditHistory(c *Ctx, d *c20Doc, doc *gedcom.Document, labels map[string]i
 	// the current tree against the model and against the specification
 	c.Tie(d.request(now), obs.Line)
 	c.Eval()
-	c20CheckSpec(c, d, obs, input)
+	c20CheckSpec(c, d, obs, input, labels)
 	// the current tree against a copy of it that has no past
 	fobs, fpan := c20Observe(fresh, labels)
 	if fpan != "" || fobs.Line != obs.Line {
